@@ -3,6 +3,7 @@ T1 = "clematis/engine/stages/t1.py"
 OC = "clematis/engine/orchestrator/core.py"
 T1C = "clematis/engine/stages/t1.py"
 CASES = [
+    ("cli-drops-program-name", "mutant", "clematis/cli/validate.py", "    return _main([\"validate\", *rest])\n", "    return _main(rest)\n", "C14.API"),
     ("k-surface-unchecked", "mutant", V, "        merged[\"k_surface\"] = _coerce_int(merged.get(\"k_surface\"), 0)\n        if merged[\"k_surface\"] < 1:\n            _err(errors, \"k_surface\", \"must be an integer >= 1\")\n", "        pass\n", "C14.CONTRACT"),
     ("namespace-cache-evicts-at-cap", "mutant", "clematis/engine/cache.py", "        while len(self._d) > self._max:\n", "        while len(self._d) >= self._max:\n", "C14.CONTRACT"),
     ("namespace-cache-evict-guarded-nonempty", "twin", "clematis/engine/cache.py", "        while len(self._d) > self._max:\n", "        while self._d and len(self._d) > self._max:\n", None),
